@@ -121,7 +121,9 @@ def findSpec (p : Path) (root : Node) (el : Pos) (single strict : Bool) : FindRe
 def Step.isUp : Step → Bool | .up => true | _ => false
 def Step.isHere : Step → Bool | .here => true | _ => false
 
-/-- a zero stride has no Python denotation -/
+/-- no slice step written as zero (Python's slice raises `ValueError` for it, and so does the
+    code since 9884fd3; with strict lookups a path can then raise either error first, so the
+    strict theorems assume `Step.wf`, the non-strict ones do not) -/
 def Step.wf : Step → Bool
   | .slice _ _ (some (some c)) => c != 0
   | _ => true
@@ -242,16 +244,16 @@ def print (p : CPath) : Str :=
 def GoodName (s : Str) : Bool := !s.isEmpty && s.getLast? != some '\\'
 
 def CStep.wf (c : CStep) : Bool :=
-  c.step.wf && match c.step with
-    | .name s => GoodName s
-    | _ => true
+  match c.step with
+  | .name s => GoodName s
+  | _ => true
 
 /-- the very last step of a path without a trailing slash has nothing after it, so there a
     name may end in a backslash (`find('/x\\')` works) -/
 def CStep.wfLast (c : CStep) : Bool :=
-  c.step.wf && match c.step with
-    | .name s => !s.isEmpty
-    | _ => true
+  match c.step with
+  | .name s => !s.isEmpty
+  | _ => true
 
 def wfSteps (trail : Bool) : List CStep → Bool
   | [] => true
